@@ -18,6 +18,11 @@ from emsarray.types import Pathish
 
 T = TypeVar('T')
 
+#: Decimal places kept in text formats.
+#: The geojson and WKT writers round to six places unless told otherwise;
+#: this many places keeps every float64 coordinate exactly as it is.
+FULL_PRECISION = 324
+
 
 class _dumpable_iterator(Generic[T], list):
     """
@@ -72,7 +77,9 @@ def to_geojson(
     :func:`.write_geojson`
     """
     return geojson.FeatureCollection(_dumpable_iterator(
-        geojson.Feature(geometry=polygon, properties={
+        geojson.Feature(geometry=geojson.Polygon(
+            polygon.__geo_interface__['coordinates'], precision=FULL_PRECISION,
+        ), properties={
             'linear_index': i,
             'index': dataset.ems.wind_index(i),
         })
